@@ -96,7 +96,7 @@ theorem mainLoop_end_tag (T : Tokenizer) (disp : Bytes) (ok : Ok T) (he : T.err 
     rw [if_neg (by rw [o.rawE]; omega), if_neg (by rw [o.rawS, o.rawE, hrs]; omega)]
     have h1 : ¬ isAlpha 47 = true := by decide
     rw [if_neg h1, if_pos (by decide)]
-    simp only []
+    try simp only []
     rw [if_neg (by rw [e3]; exact Bool.false_ne_true), e1]
     have hc62 : ¬ (c == 62) = true := by
       have := (isAlnum_lt (isAlpha_alnum hc)); simp only [isAlpha, Bool.or_eq_true, Bool.and_eq_true, decide_eq_true_eq] at hc
